@@ -194,11 +194,67 @@ pub fn run_tree(ctx: &Ctx, out: &mut Outcome, depth: usize, oracle: TreeOracle) 
             }
         }
     }
+    run_rows(ctx, out, oracle);
+    if out.failed() {
+        out.stats.evaluations += total_runs;
+        return;
+    }
     out.stats.evaluations += total_runs;
     out.stats.add("tree: runs through the real generation loop", total_runs);
     out.stats.add("tree: distinct abstract states expanded", total_states);
     out.stats.add("tree: (protocol, opcode) pairs executed", reached.len() as u64);
     out.extra.insert("tree".into(), json!({"depth": depth, "runs": total_runs, "abstract_states": total_states, "protocol_opcode_pairs": reached.len()}));
+}
+
+
+/// Data-dependent corners: the opcodes whose argument is drawn from the embedded table of stdlib names
+/// (GLOBAL, INST) are scripted and the first two entropy bytes behind the script are enumerated exhaustively,
+/// which walks through every row of the table (19 061 rows < 65 536); each program continues with the
+/// opcodes that consume the name (REDUCE, INST) so that every oracle sees what the row does to the machine.
+pub fn run_rows(ctx: &Ctx, out: &mut Outcome, oracle: TreeOracle) {
+    let scripts: Vec<Vec<u8>> = vec![vec![t::GLOBAL], vec![t::GLOBAL, t::MARK, t::TUPLE, t::REDUCE], vec![t::MARK, t::NONE, t::INST]];
+    let mut total = 0u64;
+    let mut unfollowed = 0u64;
+    let mut distinct: HashSet<u64> = HashSet::new();
+    for protocol in 0u8..=5 {
+        // protocols >= 4 draw the FRAME coin first: both values of that byte
+        let heads: Vec<Vec<u8>> = if protocol >= 4 { vec![vec![0], vec![1]] } else { vec![vec![]] };
+        for script in &scripts {
+            for head in &heads {
+                let cases: Vec<ScriptCase> = (0..65536u32)
+                    .map(|x| {
+                        let mut b = head.clone();
+                        b.push((x >> 8) as u8);
+                        b.push(x as u8);
+                        ScriptCase { protocol, script: script.clone(), entropy: Entropy::Bytes(b), allow_ext: true, allow_buffer: true }
+                    })
+                    .collect();
+                let results = par_map(&cases, |sc| run_node(sc, oracle).map(|n| util::digest(&n.opcodes_seen) ^ n.key.0));
+                total += cases.len() as u64;
+                for (sc, r) in cases.iter().zip(results.into_iter()) {
+                    match r {
+                        // the loop did not follow the script (an opcode of it was not a candidate): not a case
+                        Err(f) if f.sig.starts_with("harness:") => unfollowed += 1,
+                        Err(f) => {
+                            let mut st = Stats::default();
+                            if ctx.fail(&mut st, f.clone()).is_err() {
+                                out.violation = Some(Violation { fail: f, case: json!({"script_case": sc, "script_names": sc.names()}) });
+                                out.stats.evaluations += total;
+                                return;
+                            }
+                            out.stats.merge(st);
+                        }
+                        Ok(d) => {
+                            distinct.insert(d ^ ((protocol as u64) << 56));
+                        }
+                    }
+                }
+            }
+        }
+    }
+    out.stats.evaluations += total;
+    out.stats.add("name-table sweep: scripted GLOBAL / INST programs, first two entropy bytes enumerated", total);
+    out.stats.add("name-table sweep: programs whose script was not followed (skipped)", unfollowed);
 }
 
 pub fn replay(ctx: &Ctx, sc: &ScriptCase, oracle: TreeOracle) -> Result<(), Fail> {
